@@ -94,7 +94,7 @@ RdmRoute ==
 \* the reduced state in operator form: trace joins upper with lower; partial transpose swaps them on sysa
 OperatorRoute ==
   /\ st.ph = "init"
-  /\ \E s \in SiteTuples(dims) : \E sys \in SUBSET (1..Len(s)) :
+  /\ \E s \in {t \in SiteTuples(dims) : Len(t) <= 2 \/ t = <<1, 2, 3>>} : \E sys \in SUBSET (1..Len(s)) :
        LET sd == SubDims(dims, s) IN
        st' = Let1(RhoImpl(psi, dims, s, FALSE), LAMBDA rho :
              \* reindex upper<->lower on sysa = entry (a, b) reads the old entry with the sysa digits exchanged
@@ -110,8 +110,7 @@ FirstState == psi = [i \in 1..Size(dims) |-> AmpSeq[1]] /\ Size(dims) > 4 /\ dim
 TableCase ==
   /\ st.ph = "init" /\ FirstState
   /\ \E cls \in Classes, route \in Routes, n \in 1..3, asc \in BOOLEAN, bare \in BOOLEAN, nrm \in BOOLEAN, thin \in BOOLEAN :
-       /\ ShapeOK(cls, n, asc, bare)
-       /\ (thin => cls = "peps3d")
+       /\ Exercised(route, cls, n, asc, bare, nrm, thin)
        /\ st' = [ph |-> "case", cls |-> cls, route |-> route, n |-> n, asc |-> asc, bare |-> bare, nrm |-> nrm,
                  thin |-> thin, avail |-> Avail(route, cls, n, asc, bare, nrm, thin)]
        /\ (Emit => PrintT(<<"QVJSON", ToJson(st')>>))
@@ -173,6 +172,7 @@ TableSane ==
   st.ph = "case" =>
     /\ (st.avail => st.route \in Routes)
     /\ (st.route \in ExpectRoutes /\ st.avail => FamilyOf(st.route) \in Families)
+    /\ (st.avail => Exercised(st.route, st.cls, st.n, st.asc, st.bare, st.nrm, st.thin))
     /\ (st.n <= 2 /\ ~st.bare =>
           /\ \E r \in ExpectRoutes : Avail(r, st.cls, st.n, st.asc, FALSE, st.nrm, st.thin)
           /\ \E r \in RdmRoutes : Avail(r, st.cls, st.n, st.asc, FALSE, st.nrm, st.thin))
